@@ -5,9 +5,9 @@ use trustfall_core::ir::FieldValue;
 use trustfall_core::schema::Schema;
 
 use super::{Ty, find_call, graphql_literal};
-use crate::rng::Rng;
-use crate::sexp::Sexp;
-use crate::values::{sexp_to_value, value_to_sexp};
+use tfharness::rng::Rng;
+use tfharness::sexp::Sexp;
+use tfharness::values::{sexp_to_value, value_to_sexp};
 
 pub const ROOT_TYPE: &str = "RootSchemaQuery";
 
@@ -151,7 +151,7 @@ impl GenSchema {
     // ---------------------------------------------------------------- protocol text
 
     pub fn to_sexp(&self) -> Sexp {
-        let a = Sexp::atom;
+        use super::atom as a;
         let edge_sexp = |e: &EdgeDef| -> Sexp {
             let params = Sexp::call(
                 "params",
@@ -356,6 +356,18 @@ pub fn gen_schema(rng: &mut Rng, knobs: &SchemaKnobs) -> GenSchema {
         let supers = close(&types, &direct);
         types.push(TypeDef { name: format!("T{j}"), is_iface: false, supers, props: vec![], edges: vec![] });
     }
+    // every interface gets at least one concrete implementer (otherwise nothing inhabits it)
+    for i in 0..n_if {
+        let iname = format!("I{i}");
+        if types.iter().any(|t| !t.is_iface && t.supers.contains(&iname)) {
+            continue;
+        }
+        let j = n_if + rng.below(n_obj);
+        let mut direct = types[j].supers.clone();
+        direct.push(iname);
+        let supers = close(&types, &direct);
+        types[j].supers = supers;
+    }
     let names: Vec<String> = types.iter().map(|t| t.name.clone()).collect();
     let subtypes_incl = |types: &[TypeDef], x: &str| -> Vec<usize> {
         types.iter().enumerate().filter(|(_, t)| t.name == x || t.supers.iter().any(|s| s == x)).map(|(i, _)| i).collect()
@@ -374,6 +386,16 @@ pub fn gen_schema(rng: &mut Rng, knobs: &SchemaKnobs) -> GenSchema {
             }
             for i in subs {
                 types[i].props.push((pname.clone(), pty.clone()));
+            }
+        }
+    }
+    // a type left without any property (its subtypes got `id` through another root) gets a property
+    // of its own, so that no type body is empty
+    for x in &names {
+        let i = types.iter().position(|t| &t.name == x).unwrap();
+        if types[i].props.is_empty() {
+            for j in subtypes_incl(&types, x) {
+                types[j].props.push((format!("x{x}"), Ty::named("String", true)));
             }
         }
     }
